@@ -50,7 +50,8 @@ KnownPowTower(inp, o)    == "pow-tower" \in inp.tags /\ o.class = "timeout"
 KnownDeepExpr(inp, o)    == "deep-expression" \in inp.tags /\ o.class = "crash" /\ o.cls = "RecursionError"
 KnownOverflow(inp, o)    == "nonfinite-or-huge-number" \in inp.tags /\ o.class = "crash" /\ o.cls = "OverflowError"
 KnownShortTuple(inp, o)  == "short-tuple-assignment" \in inp.tags /\ o.class = "crash" /\ o.cls = "IndexError"
-SxConstructs == {"walrus", "yield", "starred-expression", "non-ascii-target", "write-keyword-argument"}
+SxConstructs == {"walrus", "yield", "starred-expression", "non-ascii-target", "write-keyword-argument",
+                 "header-like-line-in-multiline-string"}
 KnownSyntaxError(inp, o) == /\ inp.python /\ inp.tags \cap SxConstructs # {}
                             /\ o.class = "reject" /\ o.cls = "SyntaxError" /\ Prompt(o.bucket)
 KnownId(inp, o) ==
